@@ -313,6 +313,9 @@ def run(chk, w):
         if init != 64:
             chk.violation("C01-CAP", "-", "capacity-init", "%s:%s" % (P.globals[gname].get("file"), P.globals[gname].get("line")), "initial packet capacity is %r, not 64" % (init,))
 
+    # ---- NODROP: once admitted, a message is always appended
+    nodrop_rule(chk, w, roles, "C01-NODROP")
+
     # ---- WMC: who may call the append routine
     chk.rule("C01-WMC", "the append routine is called only behind admission: on the true edge of the admission test, or from the deferred-message retry")
     from .. import nodestate
@@ -339,6 +342,23 @@ def run(chk, w):
         intervals = None
     if intervals is not None:
         intervals.check_send_bounds(chk, w, roles)
+
+
+def nodrop_rule(chk, w, roles, rid):
+    """every path through the append routine executes the copy into the batch buffer (shared with C05: a message dropped
+    here has already been given its sequence number)"""
+    chk.rule(rid, "every path through the append routine copies the message into the batch buffer (an admitted, numbered message is never dropped)")
+    seen = set()
+    for (f, mc) in roles["append"]:
+        if f.name in seen:
+            continue
+        seen.add(f.name)
+        copies = {i.id for (g, i) in roles["append"] if g is f}
+        p = rules.exists_path(f, f.blocks[0].insts[0], "exit", lambda x: x.id in copies, include_start=True)
+        if p:
+            chk.violation(rid, f.name, "drop", p[-1].loc(), "a path through %s returns without appending the message (%s): the message is lost after admission and after its sequence number was taken" % (f.name, rules.path_text(p)))
+        else:
+            chk.ok(rid, 1, {"append_routine": f.name})
 
 
 def _is_cell(key, cells):
